@@ -55,7 +55,7 @@ def gen_cases(seed, tier):
         cfg['nchan'] = int(rng.integers(1, cfg['P'] // 2 + 1))
         cfg['start_chan'] = int(rng.integers(0, cfg['P'] // 2 - cfg['nchan'] + 1))
         cfg['nsub'] = 1
-        many = (i % 5 == 1)
+        many = (common.stratum(i, 1, 5) == 1)
         if many:     # many blocks per file: block-count readers that mis-size the header drift by a whole block
             cfg['nblocks'], cfg['bpf'] = int(rng.integers(20, 41)), int(rng.integers(15, 41))
         user = {}
@@ -71,29 +71,30 @@ def gen_cases(seed, tier):
             else:
                 v = ''.join(schars[int(x)] for x in rng.integers(0, len(schars), size=int(rng.integers(1, 41)))).strip() or 'x'
             user[k] = v
-        d = DIRECTIO[i % len(DIRECTIO)]
+        d = common.stratum(i, 2, DIRECTIO)
         if d != 'absent':
             user['DIRECTIO'] = d
         override = {}
-        if (i // 8) % 2:
-            fld = OWNED[(i // 16) % len(OWNED)]
+        if common.stratum(i, 3, 2):
+            fld = common.stratum(i, 4, OWNED)
             override[fld] = {'NBITS': 16, 'NPOL': 4, 'OBSNCHAN': 999, 'NANTS': 7, 'BLOCSIZE': 4096, 'TBIN': 1.0e-3, 'CHAN_BW': 123.5,
                              'OBSBW': -77.0, 'OBSFREQ': 1.0, 'SCANLEN': 9999.0}[fld]
         pkt = {}
-        if (i // 3) % 3 == 1:
+        pk = common.stratum(i, 5, 3)
+        if pk == 1:
             pkt['PKTIDX'] = int(rng.integers(0, 10 ** 6))
-        elif (i // 3) % 3 == 2:
+        elif pk == 2:
             pkt['PKTIDX'] = int(rng.integers(0, 10 ** 6))
             pkt['PKTSTART'] = pkt['PKTIDX'] - int(rng.integers(0, 100))
         if rng.random() < 0.1:
             user['SRC_NAME'] = 'VOYAGER1'
-        if i % 16 == 5:
+        if common.stratum(i, 6, 16) == 5:
             user['EMPTYSTR'] = ''
-        if i % 7 == 4:
+        if common.stratum(i, 7, 7) == 4:
             # a valid 8-character key that merely begins with the letters E N D (only the exact END card terminates a header)
             user[str(common.pick(rng, ['ENDFREQ', 'ENDTIME', 'ENDING', 'ENDCHAN8']))] = int(rng.integers(1, 1000))
-        cases.append(dict(cfg=cfg, user=user, override=override, pkt=pkt, template=bool((i // 5) % 3 == 0) and not many,
-                          residue=0 if i % 8 == 0 else (i * 7 + i // 32) % 32, sub=int(rng.integers(2 ** 31))))
+        cases.append(dict(cfg=cfg, user=user, override=override, pkt=pkt, template=bool(common.stratum(i, 8, 3) == 0) and not many,
+                          residue=0 if common.stratum(i, 9, 8) == 0 else common.stratum(i, 10, 32), sub=int(rng.integers(2 ** 31))))
     return cases
 
 
